@@ -638,7 +638,10 @@ func (p *Parser) parseTernaryExpression(condition ast.Expression) ast.Expression
 		Condition: condition,
 	}
 	p.nextToken() //skip the '?'
-	precedence := p.curPrecedence()
+
+	// Both arms are complete expressions: they extend as far as
+	// they can, i.e. to the ":" and to the end of the ternary.
+	precedence := LOWEST
 	expression.IfTrue = p.parseExpression(precedence)
 
 	// error?
